@@ -88,9 +88,11 @@ def dq_render(b, rng=None, p_cont=0.0):
             units.append(b"\\n")
         elif rng is not None and c == 0x09 and rng.random() < 0.5:
             units.append(b"\\t")
-        elif rng is not None and rng.random() < 0.05:
+        # a numeric escape only where the byte after it cannot be read as one more digit of it ("\\164" then "2" is the
+        # four-digit escape "\\1642", which the scanner rejects: the rendering would not denote the string)
+        elif rng is not None and rng.random() < 0.05 and not (i + 1 < len(b) and chr(b[i + 1]) in "0123456789abcdefABCDEF"):
             units.append(b"\\x%02x" % c)
-        elif rng is not None and rng.random() < 0.03:
+        elif rng is not None and rng.random() < 0.03 and not (i + 1 < len(b) and chr(b[i + 1]) in "0123456789"):
             units.append(b"\\%03o" % c)
         else:
             units.append(bytes([c]))
